@@ -62,6 +62,7 @@ class TFLiteSubgraph:
         # entry every original position refers to so that the writer can restore the original list
         self.output_positions = [self.outputs.index(self.tensors[idx]) for idx in subgraph.OutputsAsNumpy()]
         self.inputs = self.get_tensors_from_indices_remove_duplicates(subgraph.InputsAsNumpy(), "input")
+        self.input_positions = [self.inputs.index(self.tensors[idx]) for idx in subgraph.InputsAsNumpy()]
         fixup_tensors(self.inputs, self.tensors)
 
         self.outputs.extend(self.virtual_outputs)
@@ -333,6 +334,7 @@ class TFLiteGraph:
                 sg.original_inputs = tflite_sg.inputs  # Preserve the original input order
                 sg.output_tensors = tflite_sg.outputs
                 sg.original_output_positions = tflite_sg.output_positions
+                sg.original_input_positions = tflite_sg.input_positions
                 sg.virtual_outputs = tflite_sg.virtual_outputs
 
             parsing_step = "parsing metadata length"
